@@ -84,6 +84,72 @@ def _vec(e):
     return None
 
 
+def _fold(e, env):
+    """constant folding of a mask expression at one numeric point; None when something is not a compile-time constant"""
+    import operator as op
+    if isinstance(e, ast.Constant) and isinstance(e.value, (int, float)) and not isinstance(e.value, bool):
+        return e.value
+    if isinstance(e, ast.Name):
+        return env.get(e.id)
+    if isinstance(e, ast.UnaryOp) and isinstance(e.op, (ast.USub, ast.UAdd, ast.Not, ast.Invert)):
+        v = _fold(e.operand, env)
+        if v is None:
+            return None
+        return {ast.USub: lambda: -v, ast.UAdd: lambda: v, ast.Not: lambda: (not v), ast.Invert: lambda: (not v) if isinstance(v, bool) else None}[type(e.op)]()
+    if isinstance(e, ast.BinOp):
+        a, b = _fold(e.left, env), _fold(e.right, env)
+        f = {ast.Add: op.add, ast.Sub: op.sub, ast.Mult: op.mul, ast.Div: op.truediv, ast.Pow: op.pow}.get(type(e.op))
+        if isinstance(e.op, (ast.BitAnd, ast.BitOr)) and isinstance(a, bool) and isinstance(b, bool):
+            return (a and b) if isinstance(e.op, ast.BitAnd) else (a or b)
+        if a is None or b is None or f is None or isinstance(a, bool) or isinstance(b, bool):
+            return None
+        try:
+            return f(a, b)
+        except (ZeroDivisionError, OverflowError, ValueError):
+            return None
+    if isinstance(e, ast.Compare):
+        vals = [_fold(x, env) for x in [e.left] + e.comparators]
+        if any(v is None or isinstance(v, bool) for v in vals):
+            return None
+        f = {ast.Gt: op.gt, ast.GtE: op.ge, ast.Lt: op.lt, ast.LtE: op.le, ast.Eq: op.eq, ast.NotEq: op.ne}
+        if any(type(o) not in f for o in e.ops):
+            return None
+        return all(f[type(o)](a, b) for o, a, b in zip(e.ops, vals, vals[1:]))
+    if isinstance(e, ast.BoolOp):
+        vals = [_fold(x, env) for x in e.values]
+        if any(not isinstance(v, bool) for v in vals):
+            return None
+        return all(vals) if isinstance(e.op, ast.And) else any(vals)
+    return None
+
+
+def _probe_reaches_formula(repo, cls, wrapper, fn, point):
+    """the public wrapper evaluates the private formula `fn` only where its mask holds: folds the mask at the literal probe point.
+    True / False, or None when the wrapper has no single masked store of self.<fn>(...) or the mask is not a constant at the point"""
+    w = _method(repo, cls, wrapper)
+    if w is None:
+        return None, None
+    ps = [p for p in U.params(w) if p != 'self']
+    if len(ps) != 1:
+        return None, None
+    masks = []
+    for s in ast.walk(w):
+        if isinstance(s, ast.Assign) and len(s.targets) == 1 and isinstance(s.targets[0], ast.Subscript) and isinstance(s.value, ast.Call) \
+                and (U.call_name(s.value) or '') == f'self.{fn}':
+            masks.append(s.targets[0].slice)
+    if len(masks) != 1:
+        return None, None
+    # the wrapper may rebind its parameter: these calls keep the value of a scalar point above 1 (frozen table;
+    # _processAspectRatio = atleast_1d + clamp of values below 1, decided by R15.1/R15.4)
+    keep = {'np.atleast_1d', 'np.array', 'np.asarray', 'np.copy', 'self._processAspectRatio', 'float', 'np.float64'}
+    env = {ps[0]: float(point)}
+    for s in ast.walk(w):
+        if isinstance(s, ast.Assign) and len(s.targets) == 1 and isinstance(s.targets[0], ast.Name) and isinstance(s.value, ast.Call) \
+                and (U.call_name(s.value) or '') in keep and s.value.args and isinstance(s.value.args[0], ast.Name) and s.value.args[0].id in env:
+            env[s.targets[0].id] = env[s.value.args[0].id]
+    return _fold(masks[0], env), masks[0]
+
+
 def r152_r153(repo, ctx):
     import sympy as sp
     ar = sp.Symbol('ar', positive=True)
@@ -158,6 +224,13 @@ def r152_r153(repo, ctx):
                         # public wrapper: at exactly 1 it returns the base-class minimum, above 1 the class formula
                         if arg is not None and arg > 1 and arg < 1.01:
                             ok = True
+                            # two cooperating sites: the probe point must lie where the wrapper's mask selects the formula
+                            reach, mask = _probe_reaches_formula(repo, cls, nm[5:], fn, arg)
+                            if reach is None:
+                                ctx.undecided('R15.3', SF, f'{cls}.__init__', src_, f'cannot fold the mask under which {nm[5:]} evaluates {fn} at the probe point {arg}')
+                            elif reach is False:
+                                ok = False
+                                why = f'{U.src(v)} probes the public wrapper at {arg}, where its mask `{U.src(mask)}` is false, so it returns the placeholder minimum and not the {cls} formula'
                         elif arg == 1:
                             bval = ToSympy().tr(base_min[attr]) if attr in base_min else None
                             ok = bval is not None and sp.simplify(bval - lim) == 0
